@@ -301,7 +301,7 @@ theorem grow_detect (s : St) (c : Cfg) (call : Call) (err : ErrKind) : Grow s (d
         split
         · exact Grow.refl s
         · split
-          · exact (grow_modRef s call.slot (fun r => { r with deCalls := r.deCalls + 1 })).trans (grow_refresh _ _)
+          · exact (grow_modRef s call.slot (fun r => { r with deCalls := satInc r.deCalls })).trans (grow_refresh _ _)
           · exact grow_modRef _ _ _
 
 theorem grow_opDone (s : St) (callId : Nat) (err : ErrKind) (reply : Msg) : Grow s (opDone s callId err reply).1 := by
